@@ -6,7 +6,6 @@ Open Scope Z_scope.
 
 (* copyObject: the metadata headers of the copy request win, the source's fill in the rest;
    the ACL is not carried over *)
-Definition meta_has (k : list N) (m : meta) : bool := existsb (fun kv => beq k (fst kv)) m.
 Definition merge_meta (req src : meta) : meta :=
   req ++ filter (fun kv => negb (meta_has (fst kv) req) && negb (beq (fst kv) (B "X-Amz-Acl"))) src.
 
@@ -78,7 +77,7 @@ Definition step (c : config) (s : state) (o : op) : state * resp :=
       match ensure_bucket c s b with
       | (s1, Some e) => (s1, RErr e)
       | (s1, None) =>
-          match put_object s1 b k body m with
+          match put_object s1 b k body (carry_meta s1 b k m) with
           | (s2, (None, vid)) => (s2, RPut vid)
           | (s2, (Some e, _)) => (s2, RErr e)
           end
@@ -150,7 +149,7 @@ Definition step (c : config) (s : state) (o : op) : state * resp :=
           match get_object s1 sb sk with
           | OErr e => (s1, RErr e)
           | OObj v _ =>
-              match put_object s1 b k (vd_body v) (merge_meta m (vd_meta v)) with
+              match put_object s1 b k (vd_body v) (carry_meta s1 b k (merge_meta m (vd_meta v))) with
               | (s2, (None, _)) => (s2, RCopy (vd_body v))
               | (s2, (Some e, _)) => (s2, RErr e)
               end
